@@ -20,6 +20,14 @@ P = {
          "TLC enumerates declarations (MC_Decl.tla) and checks mechanism = documented procedure on the spec; each declaration is compiled through the real derive macro and its behaviour compared with the specification's interpretation of the same declaration",
          "translation validation of the macro expansion: >1000 declarations (struct shapes x transient subsets x Option spellings x evolution annotations x nesting/recursion x special field names; enums x shapes x transient x sorted x variant evolution), every value over 2-point field domains: bytes, decoded value (transient reset), self-delimitation, prefix rejection.",
          "declaration universe bounded as in spec/MC_Decl.tla; tools/gen_decl.py trusted"),
+ "C09": (True, "model_checking", "6 C09",
+         "TLA+ string-table semantics (Codec!StoreString used by Enc and Dec alike) checked by TLC on MC_Strings.tla over all write sequences x placements; every sequence replayed through the library (one context per stream)",
+         "all sequences of <= 4 (quick) / 5 (thorough) writes over {a, b, gone} x {dedup, plain} in 8 placements incl. evolved records whose header carries a removed / transient field name colliding with a value, and two such records in a vector; bytes, decoded strings, first-is-plain / repeat-is-VarI(-id) / no-repeat-no-cost, and ids never introduced.",
+         "cross-version dedup is documented by the library as incompatible and is outside the property"),
+ "C10": (True, "model_checking", "6 C10",
+         "TLA+ object-table and graph-codec specification (Refs.tla) checked by TLC on every small rooted graph; each graph replayed with an Rc<RefCell<Node>> codec built on the library's reference-tracking API, compared by bytes and by pointer-identity canonical form",
+         "all 2249 successor structures on <= 3 nodes (out-degree <= 2) x 2 labelings: isomorphism incl. sharing and distinctness, each reachable object written once, ids in pre-order, termination on cycles; every stream byte rewritten to an object number beyond the table must be rejected as the reference says.",
+         "the graph codec is harness code (the library ships none); decoded nodes are registered from a boxed arena because the table stores raw pointers (D13)"),
  "C13": (True, "translation_validation", "6 C13",
          "TLC invariants CtorIdentity / ExtensionSafe / UnknownCtorErr on MC_Decl.tla; enum pairs (E, E') generated as separate derived Rust types and replayed",
          "all enums of 1-3 variants over unit/tuple/struct shapes x transient placement x sorted/unsorted (names chosen so sorting permutes), all extensions by 1-2 later constructors (appended; for sorted enums also declared first), all indices >= n incl. 127, 128, 2^28, 2^32-1: decoded by the other definition / must be the dedicated errors.",
